@@ -646,7 +646,8 @@ func (r *Request) executeHandler() {
 		if r.method == "new" {
 			if hs.New != nil {
 				hs.New(r)
-				return
+				// Leave the switch to reach the missing response check
+				break
 			}
 		}
 		var h CallHandler
